@@ -87,10 +87,10 @@ Definition allocated (h : heap) (R : list loc) : Prop := forall r, In r R -> r <
 
 Definition disjoint (P Q : loc -> Prop) : Prop := forall l, P l -> Q l -> False.
 
-Lemma rt_refl : forall h l, rt h l l.
-Proof. intros; apply rt_refl. Qed.
+Lemma rt_here : forall h l, rt h l l.
+Proof. intros; apply Relation_Operators.rt_refl. Qed.
 
-Lemma rt_step : forall h a b c, rt h a b -> edge h b c -> rt h a c.
+Lemma rt_snoc : forall h a b c, rt h a b -> edge h b c -> rt h a c.
 Proof. intros. eapply rt_trans; eauto. now apply Relation_Operators.rt_step. Qed.
 
 Lemma rt_trans' : forall h a b c, rt h a b -> rt h b c -> rt h a c.
@@ -115,7 +115,7 @@ Qed.
 Lemma tc_first : forall h a b, tc h a b -> exists k, edge h a k /\ rt h k b.
 Proof.
   intros h a b H. apply clos_trans_t1n in H. induction H.
-  - exists y. split; auto. apply rt_refl.
+  - exists y. split; auto. apply rt_here.
   - exists y. split; auto. apply clos_t1n_trans in H0. now apply tc_rt.
 Qed.
 
@@ -146,10 +146,10 @@ Lemma reach_closed : forall h R l, closed h -> allocated h R -> reach h R l -> l
 Proof. intros h R l C A (r & I & P). eapply rt_closed; eauto. Qed.
 
 Lemma reach_root : forall h R r, In r R -> reach h R r.
-Proof. intros. exists r. split; auto. apply rt_refl. Qed.
+Proof. intros. exists r. split; auto. apply rt_here. Qed.
 
 Lemma reach_step : forall h R a b, reach h R a -> edge h a b -> reach h R b.
-Proof. intros h R a b (r & I & P) E. exists r. split; auto. eapply rt_step; eauto. Qed.
+Proof. intros h R a b (r & I & P) E. exists r. split; auto. eapply rt_snoc; eauto. Qed.
 
 Lemma reach_trans : forall h R a b, reach h R a -> rt h a b -> reach h R b.
 Proof. intros h R a b (r & I & P) E. exists r. split; auto. eapply rt_trans'; eauto. Qed.
@@ -172,8 +172,8 @@ Lemma rt_agree : forall h h' a b,
   (forall l, rt h a l -> lookup h' l = lookup h l) -> rt h a b -> rt h' a b.
 Proof.
   intros h h' a b AG R. apply clos_rt_rtn1 in R. induction R.
-  - apply rt_refl.
-  - apply clos_rtn1_rt in R. eapply rt_step; [apply IHR|].
+  - apply rt_here.
+  - apply clos_rtn1_rt in R. eapply rt_snoc; [apply IHR|].
     destruct H as (c & L & I). exists c. split; auto. rewrite AG; auto.
 Qed.
 
@@ -246,7 +246,7 @@ Lemma rt_update_tag : forall h l t t' ks a b,
   lookup h l = Some (Cell t ks) -> (rt (update h l (Cell t' ks)) a b <-> rt h a b).
 Proof.
   intros h l t t' ks a b L. split; intro R; apply clos_rt_rtn1 in R; induction R;
-    try apply rt_refl; (eapply rt_step; [eassumption|]); eapply edge_update_tag; eauto.
+    try apply rt_here; (eapply rt_snoc; [eassumption|]); eapply edge_update_tag; eauto.
 Qed.
 
 Lemma tc_update_tag : forall h l t t' ks a b,
@@ -265,9 +265,9 @@ Lemma rt_update_split : forall h l c a b,
   rt (update h l c) a b -> rt h a b \/ (rt h a l /\ rt (update h l c) l b).
 Proof.
   intros h l c a b R. apply clos_rt_rt1n in R. induction R.
-  - left. apply rt_refl.
+  - left. apply rt_here.
   - destruct (Nat.eq_dec x l) as [->|N].
-    + right. split; [apply rt_refl|]. apply clos_rt1n_rt. econstructor; eauto.
+    + right. split; [apply rt_here|]. apply clos_rt1n_rt. econstructor; eauto.
     + assert (E : edge h x y).
       { destruct H as (c' & L & I). rewrite lookup_update_other in L by auto. exists c'; auto. }
       destruct IHR as [P|[P Q]].
@@ -279,9 +279,9 @@ Lemma rt_to_update : forall h l c a b,
   rt h a b -> rt (update h l c) a b \/ rt (update h l c) a l.
 Proof.
   intros h l c a b R. apply clos_rt_rt1n in R. induction R.
-  - left. apply rt_refl.
+  - left. apply rt_here.
   - destruct (Nat.eq_dec x l) as [->|N].
-    + right. apply rt_refl.
+    + right. apply rt_here.
     + assert (E : edge (update h l c) x y).
       { destruct H as (c' & L & I). exists c'. rewrite lookup_update_other; auto. }
       destruct IHR as [P|P]; [left|right]; (eapply rt_trans'; [apply edge_rt; eauto|auto]).
